@@ -11,12 +11,12 @@ def run(tier, only=None):
     rep = Report(PROP, tier, "CrossHair symbolic execution of add_namespace / remove_namespace / add_child histories and single steps against a per-node dict model; z3 decides each path")
     t = 420 if tier == "quick" else 1500
     conds = []
-    for shape in (0, 1, 2):
+    for shape in ((0, 2) if tier == "quick" else (0, 1, 2)):
         for k1 in range(3):
             for i1 in range(4):
                 conds.append(Cond("harness.h_c13", "h_hist2", t, part=i1 * 100 + k1 * 10 + shape,
                                   label="h_hist2[shape=%d, first step: %s on n%d]" % (shape, KINDS[k1], i1)))
-    groupings = [0, 5, 12] if tier == "quick" else list(range(15))
+    groupings = [5, 12] if tier == "quick" else list(range(15))
     for shape in ((0,) if tier == "quick" else (0, 1, 2)):
         for g in groupings:
             conds.append(Cond("harness.h_c13", "h_step", t, part=g * 10 + shape, label="h_step[shape=%d, sharing pattern %d]" % (shape, g)))
@@ -32,9 +32,9 @@ def run(tier, only=None):
     if only:
         conds = [c for c in conds if only in c.label]
     conds.sort(key=lambda c: 0 if "h_step" in c.label else 1)
-    rep.bounds = {"forests": "4 nodes: chain+sibling, star, two trees (depth-3 runs: 3-node chain + isolated node)",
+    rep.bounds = {"forests": "4 nodes: chain+sibling, two trees" + ("" if tier == "quick" else ", star") + " (depth-3 runs: 3-node chain + isolated node)",
                   "histories": "depth 2 over {declare, remove, attach} x node x prefix {p,q} x URI {u,v} x attach target; the first step's kind and node are "
-                               "pinned per OS process (36 partitions)" + ("; depth 3 with the first two steps' kind and node pinned (144 partitions)" if tier != "quick" else ""),
+                               "pinned per OS process (12 partitions per forest)" + ("; depth 3 with the first two steps' kind and node pinned (144 partitions)" if tier != "quick" else ""),
                   "single_step": "one operation from an arbitrary configuration: which nodes share one dict object is pinned per process (%d of the 15 set "
                                  "partitions of 4 nodes), dict contents {p absent | p:u | p:v} per shared dict symbolic" % len(groupings),
                   "note": "weak target (identity-shared dicts, operand positions): the solver drives a complete exploration of a finite operand space"}
